@@ -365,8 +365,112 @@ let codec_line (l : string) : string =
 
 let codec_cases path = with_lines path (fun l -> print_endline (codec_line (String.trim l)))
 
+
+(* ---------- C15 / C05: primitive operation sequences ---------- *)
+let split_op (op : string) : string * string =
+  match String.index_opt op ':' with
+  | Some i -> (String.sub op 0 i, String.sub op (i + 1) (String.length op - i - 1))
+  | None -> (op, "")
+
+let oop_of (op : string) : oop =
+  let (k, a) = split_op op in
+  match k with
+  | "u8" -> OU8 (n_of_string a) | "i8" -> OI8 (z_of_string a)
+  | "u16" -> OU16 (n_of_string a) | "i16" -> OI16 (z_of_string a)
+  | "u32" -> OU32 (n_of_string a) | "i32" -> OI32 (z_of_string a)
+  | "u64" -> OU64 (n_of_string a) | "i64" -> OI64 (z_of_string a)
+  | "u128" -> OU128 (n_of_string a) | "i128" -> OI128 (z_of_string a)
+  | "f32" -> OF32 (n_of_string a) | "f64" -> OF64 (n_of_string a)
+  | "varu" -> OVarU32 (n_of_string a) | "vari" -> OVarI32 (z_of_string a)
+  | "bytes" -> OBytes (unhex a)
+  | _ -> failwith ("bad write op " ^ op)
+
+exception Model_panic
+
+let n2 = n_of_int 2 and n4 = n_of_int 4 and n8 = n_of_int 8 and n16 = n_of_int 16
+let n32 = n_of_int 32 and n64 = n_of_int 64 and n128 = n_of_int 128
+
+(* one read op on a reader; returns the printed result and the new state *)
+let read_op (r : 's reader) (s : 's) (k : string) (a : string) : string * 's =
+  let fin to_s = function
+    | Ok (v, s') -> (to_s v, s')
+    | Err _ -> ("E", s)
+    | Panic _ | Fuel -> raise Model_panic in
+  match k with
+  | "u8" -> fin string_of_n (r.r_u8 s)
+  | "i8" -> fin string_of_z (read_i8 r s)
+  | "u16" -> fin string_of_n (read_be r n2 s)
+  | "i16" -> fin string_of_z (read_signed r n2 n16 s)
+  | "u32" -> fin string_of_n (read_be r n4 s)
+  | "i32" -> fin string_of_z (read_signed r n4 n32 s)
+  | "u64" -> fin string_of_n (read_be r n8 s)
+  | "i64" -> fin string_of_z (read_signed r n8 n64 s)
+  | "u128" -> fin string_of_n (read_be r n16 s)
+  | "i128" -> fin string_of_z (read_signed r n16 n128 s)
+  | "f32" -> fin string_of_n (read_be r n4 s)
+  | "f64" -> fin string_of_n (read_be r n8 s)
+  | "varu" -> fin string_of_n (read_var_u32 r s)
+  | "vari" -> fin string_of_z (read_var_i32 r s)
+  | "bytes" -> fin hex (r.r_bytes (n_of_string a) s)
+  | "skip" -> fin (fun () -> "S") (r.r_skip (n_of_string a) s)
+  | _ -> failwith ("bad read op " ^ k)
+
+let run_reads (r : 's reader) (s0 : 's) (ops : string list) : string =
+  let s = ref s0 in
+  let out = List.filter_map (fun op ->
+      let (k, a) = split_op op in
+      if k = "push" || k = "pop" then None
+      else begin let (x, s') = read_op r !s k a in s := s'; Some x end) ops in
+  String.concat "," out
+
+let run_ctx (data : n list) (ops : string list) : string =
+  let c = ref (rctx_new data) in
+  let out = List.map (fun op ->
+      let (k, a) = split_op op in
+      match k with
+      | "push" ->
+          let (st, ln) = split_op a in
+          (match iregion_new (n_of_string st) (n_of_string ln) with
+           | Ok rg -> (match push_region !c rg with Ok c' -> c := c'; "P" | _ -> raise Model_panic)
+           | _ -> raise Model_panic)
+      | "pop" ->
+          (match pop_region !c with
+           | Ok (rg, c') -> c := c';
+               "R" ^ string_of_n rg.ir_start ^ "/" ^ string_of_n rg.ir_pos ^ "/" ^ string_of_n rg.ir_end
+           | _ -> raise Model_panic)
+      | _ -> let (x, c') = read_op ctx_reader !c k a in c := c'; x) ops in
+  String.concat "," out
+
+let ioops_line (l : string) : string =
+  match split_ws l with
+  | "w" :: ops ->
+      let os = List.map oop_of ops in
+      let v = run_oops vec_sink os [] and bm = run_oops bytesmut_sink os [] in
+      let sz = run_oops size_sink os N0 in
+      (* a lawful user sink: one write_u8 per byte *)
+      let rec_sink = { k_u8 = (fun b o -> o @ [b]); k_bytes = (fun bs o -> List.fold_left (fun o b -> o @ [b]) o bs) } in
+      let rc = run_oops rec_sink os [] in
+      let c1 = run_oops (sctx_sink vec_sink) os { sc_out = []; sc_bufs = [] } in
+      let c2 = run_oops (sctx_sink vec_sink) os { sc_out = []; sc_bufs = [[n_of_int 0xAA]] } in
+      let top = match c2.sc_bufs with t :: _ -> t | [] -> [] in
+      Printf.sprintf "%s %s %s %s %s %s %s" (hex v) (hex bm) (string_of_n sz) (hex rc) (hex c1.sc_out)
+        (hex top) (hex c2.sc_out)
+  | "r" :: data :: ops ->
+      let data = unhex data in
+      let regions = List.exists (fun o -> o = "pop" || (String.length o >= 4 && String.sub o 0 4 = "push")) ops in
+      (try
+         if regions then "- - " ^ run_ctx data ops
+         else
+           run_reads slice_reader { si_data = data; si_pos = N0 } ops ^ " " ^
+           run_reads owned_reader { oi_data = data; oi_pos = N0 } ops ^ " " ^ run_ctx data ops
+       with Model_panic -> "PANIC")
+  | _ -> failwith "bad ioops line"
+
+let ioops_cases path = with_lines path (fun l -> print_endline (ioops_line l))
+
 let () =
   match Array.to_list Sys.argv with
   | _ :: "varint-cases" :: path :: _ -> varint_cases path
   | _ :: "codec" :: path :: _ -> codec_cases path
+  | _ :: "ioops" :: path :: _ -> ioops_cases path
   | _ -> prerr_endline "usage: driver <command> <file>"; exit 2
